@@ -9,7 +9,7 @@ COQ_PRELUDE = ''
 PER_FILE = 450
 CASE_TIMEOUT = 5
 RULE = ('a universe of ~110 hand-enumerated values (None, bools, ints, floats, numpy scalars, NaN/inf, str, datetime/Timestamp/datetime64, '
-        'empty and non-empty list/tuple/dict/Dict/dict-subclass/OrderedDict, arrays of dtype int/float/bool/str/object and shapes 0-d, 1-d, 2-d, '
+        'empty and non-empty list/tuple/dict/Dict/dict-subclass/OrderedDict, namedtuples and tuple / list subclass instances with the content of plain tuples / lists, floats differing in the last bits (0.1+0.2 vs 0.3, nextafter, x*(1+1e-9), 1e10 vs 1e10+1) as scalars and as list / array / Series / DataFrame cells, arrays of dtype int/float/bool/str/object and shapes 0-d, 1-d, 2-d, '
         'with zero-length axes, Series and DataFrames with int/str/date index) is paired with itself: EVERY unordered pair gives one case '
         'evaluating eq(x,y) and eq(y,x) (the diagonal twice: same object, and an independently built copy holding fresh NaN objects); '
         'random nestings to depth 3 plus representation-changing variants (1 / 1.0 / np.int64(1), dict insertion order, dtype, NaN object) '
@@ -24,12 +24,13 @@ EXPLANATION = ('theorems C14_* (coq/props/C14.v) hold for every value of the ind
                'on NaN-free plain values; the correspondence ties eq_model to the real eq on every pair of the universe and on thousands of random nestings')
 TRUSTED = ['modelled, not verified: numpy/pandas element access (np.vectorize over object-converted cells, Index == Index), Python == on scalars '
            '(mirrored by M_eq.scalar_eqb), the harness builder that turns a JSON value description into the Python object and into the Coq literal']
-ASSUMPTIONS = ['dict keys are ASCII strings (values may be any str)', 'pandas index / column labels are NaN-free scalars', 'finite numbers are half-integers below 2^50',
+ASSUMPTIONS = ['dict keys are ASCII strings (values may be any str)', 'pandas index / column labels are NaN-free scalars', 'finite numbers are exact: half-integers below 2^50 (VNum) or any other double carried as m*2^e (VFlt)',
                'pandas extension arrays, datetime64 arrays, sets and functools.partial are outside the universe']
 EXHAUSTIVE = {'quick': False, 'thorough': False}
 
-SCALARS = ('none', 'bool', 'int', 'float', 'npint', 'npint32', 'npfloat', 'npf32', 'npbool', 'nan', 'npnan', 'npf32nan', 'inf', 'str', 'npstr', 'dt', 'ts', 'dt64')
+SCALARS = ('none', 'bool', 'int', 'float', 'npint', 'npint32', 'npfloat', 'npf32', 'npbool', 'nan', 'npnan', 'npf32nan', 'inf', 'flt', 'npflt', 'str', 'npstr', 'dt', 'ts', 'dt64')
 NANS = ('nan', 'npnan', 'npf32nan')
+SEQCLS = {'Point': 1, 'P3': 2, 'MyTuple': 3, 'MyList': 4}    # namedtuples (2 / 3 fields), a tuple subclass, a list subclass
 CLS = {'dict': 0, 'Dict': 1, 'FunnyDict': 2, 'OrderedDict': 3}
 D1 = 737425 * 86400000000      # 2020-01-01 00:00 on the model axis (microseconds from ordinal 0)
 D2 = D1 + 86400000000 + 3600000000
@@ -39,6 +40,8 @@ DFUT = 803169 * 86400000000           # 2200-01-01 (future)
 
 # ------------------------------------------------------------------ value descriptions
 def N_(*a): return list(a)
+def X(f): return ['flt', float(f).hex()]      # any finite float that is not a half-integer, exactly (float.hex)
+def Q(cls, *v): return ['seq', cls, list(v)]
 def I(n): return ['int', n]
 def F(tw): return ['float', tw]          # twice the value
 NAN = ['nan']
@@ -55,11 +58,13 @@ def kind(s):
     t = s[0]
     if t in SCALARS: return 'scalar'
     if t == 'dict': return 'dict:' + s[1]
+    if t == 'seq': return 'seq:' + s[1]
     return t
 
 def children(s):
     t = s[0]
     if t in ('list', 'tuple'): return s[1]
+    if t == 'seq': return s[2]
     if t == 'dict': return [v for _, v in s[2]]
     if t == 'arr': return s[3]
     if t == 'series': return s[3]
@@ -82,6 +87,9 @@ def pyrepr(s):
     if t == 'nan': return "float('nan')"
     if t == 'npnan': return 'np.float64(np.nan)'
     if t == 'inf': return "float('-inf')" if s[1] else "float('inf')"
+    if t == 'flt': return repr(float.fromhex(s[1]))
+    if t == 'npflt': return 'np.float64(%r)' % float.fromhex(s[1])
+    if t == 'seq': return '%s(%s)' % (s[1], ', '.join(map(pyrepr, s[2])) if s[1] in ('Point', 'P3') else '[' + ', '.join(map(pyrepr, s[2])) + ']')
     if t == 'str': return repr(s[1])
     if t == 'npstr': return 'np.str_(%r)' % s[1]
     if t in ('dt', 'ts', 'dt64'):
@@ -116,12 +124,17 @@ def coq_val(s, ids):
     if t in ('int', 'npint', 'npint32'): return '(VNum false (%d))' % (2 * s[1])
     if t in ('float', 'npfloat', 'npf32'): return '(VNum true (%d))' % s[1]
     if t in NANS: return '(VNaN %d%%N)' % ids.next()
+    if t in ('flt', 'npflt'):
+        n, d = float.fromhex(s[1]).as_integer_ratio()
+        assert d >= 4 and n % 2, s        # not a half-integer: those are VNum
+        return '(VFlt (%d) (%d))' % (n, -(d.bit_length() - 1))
     if t == 'inf': return '(VInf %s)' % ('true' if s[1] else 'false')
     if t in ('str', 'npstr'): return '(VStr %s)' % coq_str(s[1])
     if t in ('dt', 'ts', 'dt64'): return '(VDate (%d))' % s[1]
     cl = lambda xs: '[' + '; '.join(coq_val(x, ids) for x in xs) + ']'
     if t == 'list': return '(VList %s)' % cl(s[1])
     if t == 'tuple': return '(VTuple %s)' % cl(s[1])
+    if t == 'seq': return '(VSeq %d%%N %s)' % (SEQCLS[s[1]], cl(s[2]))
     if t == 'dict':
         return '(VDict %d%%N [%s])' % (CLS[s[1]], '; '.join('(%s, %s)' % (coq_str(k), coq_val(v, ids)) for k, v in s[2]))
     if t == 'arr': return '(VArr [%s] %s)' % ('; '.join('(%d)' % d for d in s[2]), cl(s[3]))
@@ -149,6 +162,7 @@ def scalar_key(s):
     if t in ('int', 'npint', 'npint32'): return ('num', 2 * s[1])
     if t in ('float', 'npfloat', 'npf32'): return ('num', s[1])
     if t == 'inf': return ('inf', bool(s[1]))
+    if t in ('flt', 'npflt'): return ('flt', s[1])
     if t in ('str', 'npstr'): return ('str', s[1])
     if t in ('dt', 'ts', 'dt64'): return ('date', s[1])
     raise ValueError(s)
@@ -172,6 +186,8 @@ def spec3(x, y, path='value'):
     cells = lambda a, b, p: [(False, '%s: lengths differ' % p)] if len(a) != len(b) else [spec3(i, j, '%s[%d]' % (p, n)) for n, (i, j) in enumerate(zip(a, b))]
     if kx in ('list', 'tuple'):
         return all3(cells(x[1], y[1], path))
+    if kx.startswith('seq'):
+        return all3(cells(x[2], y[2], path))
     if kx.startswith('dict'):
         dx, dy = dict(map(tuple, x[2])), dict(map(tuple, y[2]))
         if set(dx) != set(dy):
@@ -191,13 +207,18 @@ def spec3(x, y, path='value'):
 
 # ------------------------------------------------------------------ implementation side
 def impl_setup():
-    global np, pd, datetime, collections, eq, in_, veq, Dict, FunnyDict, us2dt
+    global np, pd, datetime, collections, eq, in_, veq, Dict, FunnyDict, us2dt, SEQTYPES
     import numpy as np, pandas as pd, datetime, collections
     from pyg_base import eq, in_, Dict
     from pyg_base._eq import veq
     from implutil import us2dt
     class FunnyDict(dict):
         pass
+    class MyTuple(tuple):
+        pass
+    class MyList(list):
+        pass
+    SEQTYPES = {'Point': collections.namedtuple('Point', ['x', 'y']), 'P3': collections.namedtuple('P3', ['a', 'b', 'c']), 'MyTuple': MyTuple, 'MyList': MyList}
 
 def build(s):
     """the Python object described by s; every call builds new objects (fresh NaNs)"""
@@ -215,6 +236,11 @@ def build(s):
     if t == 'nan': return float('nan')
     if t == 'npnan': return np.float64('nan')
     if t == 'inf': return float('-inf') if s[1] else float('inf')
+    if t == 'flt': return float.fromhex(s[1])
+    if t == 'npflt': return np.float64(float.fromhex(s[1]))
+    if t == 'seq':
+        vals = [build(v) for v in s[2]]
+        return SEQTYPES[s[1]](*vals) if s[1] in ('Point', 'P3') else SEQTYPES[s[1]](vals)
     if t == 'str': return str(s[1])
     if t == 'npstr': return np.str_(s[1])
     if t == 'dt': return us2dt(s[1])
@@ -384,6 +410,17 @@ def universe():
           D([('a', NONE), ('b', I(1))]), D([('a', NONE)], 'Dict'), D([('b', NONE)], 'Dict'), D([('a', NONE)], 'FunnyDict'), D([('b', NONE)], 'FunnyDict'),
           D([('x', D([('a', NONE)]))]), D([('x', D([('b', NONE)]))]), L(D([('a', NONE)])), L(D([('b', NONE)])),
           D([('a', NONE), ('b', NONE)]), D([('c', NONE), ('d', NONE)]), D([('a', NONE), ('d', NONE)])]
+    import math
+    f3, g3, h3 = 0.3, 0.1 + 0.2, math.nextafter(0.3, 0.0)
+    U += [Q('Point', I(1), I(2)), Q('MyTuple', I(1), I(2)), Q('MyList', I(1), I(2)), Q('P3', I(1), I(1), I(1)), Q('MyTuple'), Q('MyList'), Q('Point', F(2), NAN),
+          L(Q('Point', I(1), I(2))), L(T(I(1), I(2))), D([('a', Q('MyList', I(1), I(2)))]), T(Q('MyList', I(1))), T(L(I(1))),
+          A('object', [1], [Q('Point', I(1), I(2))]), A('object', [1], [T(I(1), I(2))])]
+    U += [X(f3), X(g3), X(h3), ['npflt', float(g3).hex()], X(1e-9), X(0.3 * (1 + 1e-9)), F(2 * 10 ** 10), F(2 * 10 ** 10 + 2),
+          L(X(f3)), L(X(g3)), T(X(f3), F(3)), T(X(g3), F(3)), D([('a', X(f3))]), D([('a', X(g3))]),
+          A('float', [2], [X(f3), F(3)]), A('float', [2], [X(g3), F(3)]), A('float', [2], [X(h3), F(3)]), A('float', [1], [X(1e-9)]), A('float', [1], [F(0)]),
+          A('float', [2], [F(2 * 10 ** 10), NAN]), A('float', [2], [F(2 * 10 ** 10 + 2), NAN]), A('object', [2], [X(f3), F(3)]), A('float', [2, 1], [X(f3), F(3)]),
+          SR('float', [I(0), I(1)], [X(f3), F(3)]), SR('float', [I(0), I(1)], [X(g3), F(3)]), SR('float', [I(0), I(1)], [X(f3), NAN]), SR('float', [I(0), I(1)], [X(g3), NAN]),
+          FR('float', [I(0)], [S('a'), S('b')], [X(f3), F(3)]), FR('float', [I(0)], [S('a'), S('b')], [X(g3), F(3)]), FR('float', [I(0)], [S('a'), S('b')], [X(h3), NAN])]
     U += [A('int', [2, 1, 2], [I(1), I(2), I(3), I(4)]), A('int', [1, 2, 2], [I(1), I(2), I(3), I(4)]), A('float', [2, 2, 1], [F(2), F(4), F(6), NAN]),
           L(['npf32nan']), D([('a', ['npf32nan'])]), A('object', [1], [['npf32nan']])]
     U += [A('int', [1], [I(1)]), A('int', [1, 1], [I(1)]), A('int', [], [I(1)]), A('int', [2], [I(1), I(2)]), A('int', [1, 2], [I(1), I(2)]),
@@ -405,7 +442,7 @@ def universe():
     return U
 
 SC_POOL = [['none'], ['bool', True], I(0), I(1), I(2), I(-3), F(2), F(3), F(5), ['npint', 1], ['npint', 2], ['npfloat', 2], NAN, ['npnan'], ['inf', False], ['inf', True],
-           ['npint32', 2], ['npf32', 3], ['npf32nan'], ['dt', D3], ['ts', DFUT], ['dt64', DOLD], I(2 ** 40 + 1),
+           ['npint32', 2], ['npf32', 3], ['npf32nan'], X(0.3), X(0.1 + 0.2), ['npflt', float(0.3).hex()], X(1e-9), ['dt', D3], ['ts', DFUT], ['dt64', DOLD], I(2 ** 40 + 1),
            S('a'), S('b'), S('ab'), ['npstr', 'a'], ['dt', D1], ['ts', D1], ['dt64', D2], ['dt', D2]]
 KEYS = ['a', 'b', 'c', 'ab', 'B', 'a1', 'z']
 
@@ -414,7 +451,7 @@ def rand_scalar(rng):
 
 def rand_cells(rng, dtype, n):
     if dtype == 'int': return [I(rng.choice([0, 1, 2, 3, -1])) for _ in range(n)]
-    if dtype == 'float': return [rng.choice([F(2), F(3), F(4), F(0), NAN, NAN, ['inf', False]]) for _ in range(n)]
+    if dtype == 'float': return [rng.choice([F(2), F(3), F(4), F(0), NAN, NAN, ['inf', False], X(0.3), X(0.1 + 0.2), X(1e-9), F(2 * 10 ** 10)]) for _ in range(n)]
     if dtype == 'bool': return [['bool', rng.random() < 0.5] for _ in range(n)]
     if dtype == 'str': return [S(rng.choice(['a', 'b', 'ab'])) for _ in range(n)]
     return [rand_scalar(rng) for _ in range(n)]
@@ -431,7 +468,9 @@ def rand_val(rng, depth):
     if depth <= 0 or r < 0.25:
         return rand_scalar(rng)
     n = rng.choice([0, 1, 1, 2, 2, 3])
-    if r < 0.40: return ['list', [rand_val(rng, depth - 1) for _ in range(n)]]
+    if r < 0.30: return ['list', [rand_val(rng, depth - 1) for _ in range(n)]]
+    if r < 0.34: return Q('MyList', *[rand_val(rng, depth - 1) for _ in range(n)])
+    if r < 0.40: return Q(*([rng.choice(['Point', 'MyTuple'])] + [rand_val(rng, depth - 1) for _ in range(2)])) if rng.random() < 0.6 else Q('MyTuple', *[rand_val(rng, depth - 1) for _ in range(n)])
     if r < 0.52: return ['tuple', [rand_val(rng, depth - 1) for _ in range(n)]]
     if r < 0.72:
         ks = rng.sample(KEYS, n)
@@ -468,6 +507,8 @@ def variant(rng, s):
     if t in NANS: return rng.choice([NAN, ['npnan'], ['npf32nan']])
     if t in ('str', 'npstr'): return rng.choice([S(s[1]), ['npstr', s[1]]])
     if t in ('dt', 'ts', 'dt64'): return [rng.choice(['dt', 'ts', 'dt64']), s[1]]
+    if t in ('flt', 'npflt'): return [rng.choice(['flt', 'npflt']), s[1]]
+    if t == 'seq': return ['seq', s[1], [variant(rng, v) for v in s[2]]]
     if t in ('list', 'tuple'): return [t, [variant(rng, v) for v in s[1]]]
     if t == 'dict':
         items = [[k, variant(rng, v)] for k, v in s[2]]
@@ -485,10 +526,23 @@ def variant(rng, s):
         return FR(nd, s[2], s[3], [conv_cell(c, nd) for c in s[4]])
     return copy.deepcopy(s)
 
+def as_float_spec(f):
+    """the exact description of a finite Python float: half-integers are ['float', 2f], anything else ['flt', hex]"""
+    return F(int(2 * f)) if 2 * f == int(2 * f) and abs(f) < 2 ** 50 else X(f)
+
+def near(rng, f):
+    """a float within numpy.allclose tolerance of f but different from it"""
+    import math
+    g = rng.choice([math.nextafter(f, math.inf), math.nextafter(f, -math.inf), f * (1 + 1e-9), f + 1e-9, f * (1 - 3e-7)])
+    if g == f: g = math.nextafter(f, math.inf)
+    return as_float_spec(g)
+
 def mutate_scalar(rng, s):
     t = s[0]
     if t in ('int', 'npint', 'npint32'): return [t, s[1] + rng.choice([1, -1])]
+    if t in ('float', 'npfloat') and rng.random() < 0.4: return near(rng, s[1] / 2)
     if t in ('float', 'npfloat', 'npf32'): return [t, s[1] + rng.choice([1, 2, -1])]
+    if t in ('flt', 'npflt'): return near(rng, float.fromhex(s[1]))
     if t in NANS: return rng.choice([F(2), ['none'], ['inf', False]])
     if t in ('str', 'npstr'): return [t, s[1] + 'x']
     if t in ('dt', 'ts', 'dt64'): return [t, s[1] + 1000000]
@@ -508,14 +562,19 @@ def mutant(rng, s):
         i = rng.randrange(len(kids))
         if s[0] in ('arr', 'series', 'frame') and s[1] != 'object':
             new = mutate_scalar(rng, kids[i])
-            if s[1] == 'float' and new[0] not in ('float', 'nan', 'inf'): new = F(7)
+            if s[1] == 'float' and new[0] not in ('float', 'flt', 'nan', 'inf'): new = F(7)
         else:
             new = mutant(rng, kids[i])
         if t == 'dict': s[2][i][1] = new
         else: kids[i] = new
         return s
+    if t == 'seq':
+        plainkind = 'list' if s[1] == 'MyList' else 'tuple'
+        return rng.choice([[plainkind, s[2]], [plainkind, s[2]], ['seq', 'MyTuple' if s[1] != 'MyTuple' else 'MyList', s[2]]])
     if t in ('list', 'tuple'):
         c = rng.random()
+        if c < 0.3:      # the same content in a subclass / namedtuple
+            return Q('MyList', *s[1]) if t == 'list' else Q('Point', *s[1]) if len(s[1]) == 2 and rng.random() < 0.6 else Q('P3', *s[1]) if len(s[1]) == 3 and rng.random() < 0.6 else Q('MyTuple', *s[1])
         if c < 0.4: return ['tuple' if t == 'list' else 'list', s[1]]
         if c < 0.6: return [t, s[1] + [I(1)]]
         if c < 0.8 and s[1]: return [t, s[1][:-1]]
@@ -621,6 +680,18 @@ def gen_cases(rng, tier):
         if r < 0.4: seq.insert(rng.randrange(len(seq) + 1), variant(rng, x))
         elif r < 0.7: seq.insert(rng.randrange(len(seq) + 1), mutant(rng, x))
         cases.append({'kind': 'in', 'x': x, 'seq': seq, 'seq_as': rng.choice(['list', 'list', 'tuple', 'array'])})
+    import math
+    for _ in range(n // 5):      # last-bit neighbours: the same float context holding f, nextafter(f), f*(1+1e-9)
+        f = rng.choice([0.3, 0.1 + 0.2, 1.5, 1e-9, 1e10, -2.75, 123456.789])
+        cells = [as_float_spec(f), as_float_spec(math.nextafter(f, math.inf)), as_float_spec(f * (1 + 1e-9))]
+        ctx = rng.choice(['scalar', 'list', 'tuple', 'arr', 'arr2', 'objarr', 'series', 'frame', 'dict'])
+        wrap = {'scalar': lambda c: c, 'list': lambda c: L(c, F(3)), 'tuple': lambda c: T(F(3), c), 'arr': lambda c: A('float', [2], [c, NAN]),
+                'arr2': lambda c: A('float', [2, 2], [F(2), c, F(4), NAN]), 'objarr': lambda c: A('object', [2], [c, S('a')]),
+                'series': lambda c: SR('float', [I(0), I(1)], [c, F(3)]), 'frame': lambda c: FR('float', [I(0), I(1)], [S('a')], [NAN, c]), 'dict': lambda c: D([('a', c)])}[ctx]
+        x, y, z = map(wrap, cells)
+        cases.append({'kind': 'triple', 'x': x, 'y': y, 'z': z})
+        cases.append({'kind': 'pair', 'x': y, 'y': x})
+        cases.append({'kind': 'triple', 'x': x, 'y': variant(rng, x), 'z': z})
     for _ in range(n // 5):
         x = rand_val(rng, 2)
         while x[0] != 'arr' or not x[3]:
@@ -628,10 +699,19 @@ def gen_cases(rng, tier):
         y = variant(rng, x) if rng.random() < 0.4 else mutant(rng, x)
         if y[0] != 'arr' or y[2] != x[2]:
             cells = [mutate_scalar(rng, c) if is_scalar(c) and rng.random() < 0.3 else c for c in x[3]]
-            if x[1] == 'float': cells = [c if c[0] in ('float', 'nan', 'inf') else F(7) for c in cells]
+            if x[1] == 'float': cells = [c if c[0] in ('float', 'flt', 'nan', 'inf') else F(7) for c in cells]
             y = A(x[1], x[2], cells)
         cases.append({'kind': 'veq', 'x': x, 'y': y})
-    return cases
+    return [keep32_apart(c) for c in cases]
+
+def keep32_apart(case):
+    """numpy compares np.float32(v) == <python float> after rounding the double to float32 (weak-scalar promotion), so a float32
+    scalar equals every double near v: == itself is not transitive there.  A case never holds a float32 scalar together with a
+    last-bit neighbour (documented in coverage/C14.md as outside the claim); the float32 becomes a float64 in such cases."""
+    txt = json.dumps(case)
+    if '"npf32"' in txt and ('"flt"' in txt or '"npflt"' in txt):
+        return json.loads(txt.replace('"npf32"', '"npfloat"'))
+    return case
 
 LEVEL_TEXT = ('machine-checked Coq theorems (C14_*, by structural induction over every value of the nested value type: any depth, any size) that the '
               'model of eq is a NaN-aware, container-type-strict equivalence that agrees with Python == on NaN-free plain values; the model is tied to '
